@@ -278,6 +278,9 @@ package keeper
 //@       && has(Did, AccountId[AccountList[d].AccountDids[j]].AccountId) ==> Did[AccountId[AccountList[d].AccountDids[j]].AccountId].Did == d
 //@   modifies *
 //@   ensures [C17.update.foreign] err == nil ==> forall c string :: old(has(Did, c)) && old(Did[c].Did) != msg.Did ==> has(Did, c) && Did[c] == old(Did[c])
+//@   ensures [C17.update.delisted] err == nil ==> has(AccountList, msg.Did) && (forall q int :: 0 <= q && q < len(msg.RemoveAccountDid) ==> !contains(AccountList[msg.Did].AccountDids, msg.RemoveAccountDid[q]))
+//@       && (forall x string :: old(contains(AccountList[msg.Did].AccountDids, x)) && !contains(msg.RemoveAccountDid, x) ==> contains(AccountList[msg.Did].AccountDids, x))
+//@       && (forall x string :: contains(AccountList[msg.Did].AccountDids, x) ==> old(contains(AccountList[msg.Did].AccountDids, x)))
 //@   at GetPastSeeds assert [C17.update.covered] covered(accountList.AccountDids, removeList, authDids(updateList, heap(AccountAuth)))
 //@   ensures [C17.update.creator] err == nil ==> old(has(Did, "cosmos:" + ChainID + ":" + msg.Creator)) && old(Did["cosmos:" + ChainID + ":" + msg.Creator].Did) == msg.Did
 //@       && u64(msg.Timestamp + 900) >= u64(unixOf(BlockTime))
@@ -301,6 +304,13 @@ package keeper
 //@   loop L4 invariant PaymentAddress[msg0.Did] == old(PaymentAddress[msg0.Did]) && has(PaymentAddress, msg0.Did)
 //@   loop L5 invariant -1 <= rangeindex && rangeindex < len(updateList)
 //@   loop L5 invariant PaymentAddress[msg0.Did] == old(PaymentAddress[msg0.Did]) && has(PaymentAddress, msg0.Did)
-//@   loop L6 invariant -1 <= rangeindex
+//@   loop L6 invariant -1 <= rangeindex && rangeindex < len(removeList)
 //@   loop L6 invariant PaymentAddress[msg0.Did] == old(PaymentAddress[msg0.Did]) && has(PaymentAddress, msg0.Did)
-//@   loop L7 invariant -1 <= rangeindex
+//@   loop L6 invariant [C17.update.delisted] forall q int :: 0 <= q && q <= rangeindex ==> !contains(accountList.AccountDids, removeList[q])
+//@   loop L6 invariant [C17.update.delisted] forall i int, j int :: 0 <= i && i < j && j < len(accountList.AccountDids) ==> accountList.AccountDids[i] != accountList.AccountDids[j]
+//@   loop L6 invariant [C17.update.delisted] forall x string :: contains(accountList.AccountDids, x) ==> contains(entry(accountList.AccountDids), x)
+//@   loop L6 invariant [C17.update.delisted] forall x string :: contains(entry(accountList.AccountDids), x) && !contains(removeList, x) ==> contains(accountList.AccountDids, x)
+//@   loop L6 invariant [C17.update.delisted] accountList.Did == entry(accountList.Did)
+//@   loop L7 invariant -1 <= rangeindex && rangeindex < len(accountList.AccountDids)
+//@   loop L7 invariant [C17.update.delisted] accountList == entry(accountList)
+//@   loop L7 invariant [C17.update.delisted] forall k int :: 0 <= k && k <= rangeindex ==> accountList.AccountDids[k] != toRemove
